@@ -21,8 +21,8 @@ PROFILES = {
     "C06": {"g1": 1.0, "init_rules": 0.8, "w": {"addrule": 5, "nestedrules": 1.5, "reinstall": 1.5, "addruleram": 1.2, "rmrule": 1, "addpage": 8}, "r": {"resolution": 6, "global": 3}},
     "C07": {"g1": 0.9, "big_ids": 0.12, "w": {"addlinks": 7, "batch": 5, "create": 4, "rmprefix": 2, "delete": 2, "clear": 0.5}, "r": {"network": 8}},
     "C08": {"g1": 0.9, "big_ids": 0.08, "w": {"addlinks": 7, "batch": 5, "create": 4, "rmprefix": 2, "delete": 2, "clear": 0.5}, "r": {"welinks": 8}},
-    "C09": {"g1": 0.9, "w": {"addpage": 10, "addpages": 4, "create": 3, "clear": 0.5}, "r": {"paginate": 8, "pages": 1, "helpers": 1}},
-    "C10": {"g1": 0.9, "w": {"addlinks": 8, "batch": 5, "addpage": 5, "create": 3, "rmprefix": 2, "delete": 2, "clear": 0.5}, "r": {"paginatelinks": 8, "helpers": 2}},
+    "C09": {"g1": 0.9, "w": {"nestsite": 1.5, "addpage": 10, "addpages": 4, "create": 3, "clear": 0.5}, "r": {"paginate": 8, "pages": 1, "helpers": 1}},
+    "C10": {"g1": 0.9, "w": {"nestsite": 2, "addlinks": 8, "batch": 5, "addpage": 5, "create": 3, "rmprefix": 2, "delete": 2, "clear": 0.5}, "r": {"paginatelinks": 8, "helpers": 2}},
     "C11": {"w": {"reopen": 4, "clear": 1.2, "cobatch": 1.5}, "read_rate": 0.7, "abandon_batch": 0.5},
     "C12": {"g1": 0.9, "init_rules": 0.5, "poke_ids": 0.4, "w": {"create": 5, "delete": 2, "reopen": 2, "addrule": 2, "clear": 0.6, "addprefix": 2, "moveprefix": 1.5}, "r": {"global": 4}},
     "C13": {"g1": 0.9, "init_rules": 0.6, "w": {"create": 6, "addprefix": 3, "moveprefix": 2, "rmprefix": 2.5, "delete": 1, "deleteu": 0.6, "addrule": 3, "addlinks": 6, "batch": 3}, "r": {"hierarchy": 4, "hierarchy_all": 6}, "read_rate": 0.8,
